@@ -1,7 +1,10 @@
 """Unit tt: transposition table (C08) and the hash-score part of C04.
 Functions pulled from lib/texellib/transpositionTable.hpp/.cpp, move.hpp, constants.hpp."""
+import sys, os
+sys.path.insert(0, os.path.dirname(os.path.dirname(os.path.abspath(__file__))))
 from unitlib import Unit
 from prove import Group
+import common
 
 TT_H = 'lib/texellib/transpositionTable.hpp'
 TT_C = 'lib/texellib/transpositionTable.cpp'
@@ -52,13 +55,46 @@ def build():
     P(TT_H, 'TranspositionTable::byteSize')
     P(TT_C, 'TranspositionTable::setWhiteContempt')
     P(TT_H, 'TTStorage::resize')
+    # ---- on-demand tablebase installation (C12a, and the size argument of C08) ----
+    common.pieces(U)
+    common.bit_primitives(U)
+    POS_H = common.POS_H
+    U.struct(POS_H, 'Position', bases=('PositionBase',), only=['pieceTypeBB_', 'whiteBB_', 'blackBB_'])
+    U.tr.variadic_or.add(('Position', 'pieceTypeBB'))
+    for m, n in (('whiteBB', 0), ('blackBB', 0), ('occupiedBB', 0), ('pieceTypeBB', 1)):
+        P(POS_H, 'Position::' + m, nparams=n)
+    U.struct('lib/texellib/tb/tbgen.hpp', 'PieceCount', expect=[('int', 'nwq', ''), ('int', 'nwr', ''), ('int', 'nwb', ''), ('int', 'nwn', ''),
+                                                                 ('int', 'nbq', ''), ('int', 'nbr', ''), ('int', 'nbb', ''), ('int', 'nbn', '')],
+             default_init='{0, 0, 0, 0, 0, 0, 0, 0}')
+    U.tr.typemap['RelaxedShared<S64>'] = 'S64'
+    tt = U.tr.classes['TranspositionTable']
+    tt.fields['ghost_tbGen_nonnull'] = ('bool', '')
+    tt.fields['ghost_tb_complete'] = ('bool', '')
+    U.raw('S64 TranspositionTable_updateTB_requiredTime;   /* function-local `static S64 requiredTime = 3000;` */\n')
+    U.passthrough('TranspositionTable_updateTB_requiredTime')
+    U.stub('ghost_tbgen_probeDTM', '_Bool ghost_tbgen_probeDTM(struct TranspositionTable* tt, const struct Position* pos, int ply, int* score)')
+    U.stub('ghost_tbgen_generate', '_Bool ghost_tbgen_generate(struct TranspositionTable* tt, S64* maxTimeMillis)')
+    P(TT_C, 'TranspositionTable::updateTB', rules=[
+        (r'\btbGen && notUsedCnt\+\+ > 3', 'ghost_tbGen_nonnull && notUsedCnt++ > 3', 1),
+        (r'tbGen\.reset\(\);', 'ghost_tbGen_nonnull = false; ghost_tb_complete = false;', '1+'),
+        (r'return tbGen != nullptr;', 'return ghost_tbGen_nonnull;', 1),
+        (r'\btbGen && tbGen->probeDTM\(pos, 0, score\)', 'ghost_tbGen_nonnull && ghost_tbgen_probeDTM(this, &pos, 0, &score)', 1),
+        (r'static S64 requiredTime = 3000;', '', 1),
+        (r'\brequiredTime\b', 'TranspositionTable_updateTB_requiredTime', '3+'),
+        (r'tbGen = make_unique<TBGenerator<TTStorage>>\(ttStorage, pc\);', 'ghost_tbGen_nonnull = true; ghost_tb_complete = false; ghost_pc = pc;', 1),
+        (r'!tbGen->generate\(maxTimeMillis, false\)', '!ghost_tbgen_generate(this, &maxTimeMillis)', 1),
+    ], extra_locals={'ghost_pc': ('val', 'PieceCount')})
+    U.raw('struct PieceCount ghost_pc;  /* piece counts handed to the TBGenerator constructor */\n')
+    U.fragment(TT_C, 'TranspositionTable_clear_head', r'TranspositionTable::clear\(\) \{', r'if \(tableSize > 1024\*1024 && \(tableSize % 1024\) == 0\)',
+               params=[], cls='TranspositionTable', is_static=False,
+               rules=[(r'TranspositionTable::clear\(\) \{', '', 1), (r'tbGen\.reset\(\);', 'ghost_tbGen_nonnull = false; ghost_tb_complete = false;', 1)])
     return U
 
 
 # ------------------------------------------------------------------------------------------
 # Spec text (placed before the prototypes so that contracts can use it)
 # ------------------------------------------------------------------------------------------
-SPEC = r'''
+SPEC = common.BIT_SPEC + r'''
 /* index-computation invariant established by setUsedSize (C08: "for every table size the engine
    can configure (>= 512 entries) and every key, all accesses stay inside the table") */
 #define TT_IDX_INV(t) ( (t)->usedSize >= 512 && (t)->usedSize <= (1ULL << 44) \
@@ -68,6 +104,11 @@ SPEC = r'''
   && (t)->usedSize < ((((U64)(t)->usedSizeTopBits) + 1) << (t)->usedSizeShift) \
   && (t)->usedSizeMask == (((1ULL << (t)->usedSizeShift) - 1) & ~3ULL) )
 #define TB_SIZE (5ULL * 1024 * 1024)      /* bytes reserved for an on-demand tablebase */
+/* class invariant of the table w.r.t. a resident on-demand tablebase (C12: "an aborted generation never leaves
+   a partially computed table in use"; C08: "ordinary stores never touch that part") */
+#define TB_INV(t) ( ((t)->ghost_tbGen_nonnull ? ((t)->ghost_tb_complete && (t)->tableSize * 16 >= TB_SIZE + 2 * 1024 * 1024 && (t)->usedSize == (t)->tableSize - TB_SIZE / 16) \
+                                              : (t)->usedSize == (t)->tableSize) \
+                  && (t)->tableSize % 4 == 0 && (t)->tableSize >= 512 && (t)->tableSize <= (1ULL << 44) && TT_IDX_INV(t) )
 #define ENT_EQ(a, b) ((a).key == (b).key && (a).data == (b).data)
 U64 ghost_j, ghost_k; int ghost_q;
 /* record layout as documented in transpositionTable.hpp (move 0/16, score 16/16, depth 32/9, busy 41/1,
@@ -209,6 +250,27 @@ CONTRACTS['TTEntry_isCutOff'] = {
     ],
 }
 
+CONTRACTS.update(common.BIT_CONTRACTS)
+CONTRACTS['ghost_tbgen_probeDTM'] = {   # assumed: TBGenerator::probeDTM reads the table only
+    'assigns': ['*score'], 'ensures': ['1']}
+CONTRACTS['ghost_tbgen_generate'] = {   # assumed: generate() writes TB bytes (entries >= tableSize - TB_SIZE/16, see lemma_tbregion) and reports completion
+    'assigns': ['tt->ghost_tb_complete'], 'ensures': ['tt->ghost_tb_complete == __CPROVER_return_value']}
+CONTRACTS['TranspositionTable_updateTB'] = {
+    'requires': ['__CPROVER_is_fresh(self, sizeof(*self))', '__CPROVER_is_fresh(pos, sizeof(*pos))', '__CPROVER_is_fresh(maxTimeMillis, sizeof(S64))',
+                 'TB_INV(self)', '0 <= self->notUsedCnt && self->notUsedCnt < 1000', '0 <= TranspositionTable_updateTB_requiredTime && TranspositionTable_updateTB_requiredTime < (1LL << 60)',
+                 '*maxTimeMillis < (1LL << 60)'],
+    'assigns': ['self->usedSize, self->usedSizeShift, self->usedSizeTopBits, self->usedSizeMask, self->notUsedCnt, self->ghost_tbGen_nonnull, self->ghost_tb_complete',
+                'TranspositionTable_updateTB_requiredTime', 'ghost_pc'],
+    'ensures': ['TB_INV(self)',
+                # "return true if TBs are available"
+                '__CPROVER_return_value ==> (self->ghost_tbGen_nonnull && self->ghost_tb_complete)'],
+}
+CONTRACTS['TranspositionTable_clear_head'] = {
+    'requires': ['__CPROVER_is_fresh(self, sizeof(*self))', 'self->tableSize % 4 == 0 && self->tableSize >= 512 && self->tableSize <= (1ULL << 44)'],
+    'assigns': ['self->usedSize, self->usedSizeShift, self->usedSizeTopBits, self->usedSizeMask, self->notUsedCnt, self->ghost_tbGen_nonnull, self->ghost_tb_complete'],
+    'ensures': ['TB_INV(self)', '!self->ghost_tbGen_nonnull'],
+}
+
 HARNESS = r"""
 #ifdef CANARY
 #define CANARY_POINT __CPROVER_assert(0, "canary: harness end reachable")
@@ -231,6 +293,9 @@ void h_isCutOff(void) { struct TTEntry* e; int a, b, ply, d; TTEntry_isCutOff(e,
 void h_getByte(void) { struct TranspositionTable* t; U64 idx; TranspositionTable_getByte(t, idx); CANARY_POINT; }
 void h_putByte(void) { struct TranspositionTable* t; U64 idx; U8 v; HAVOC_GHOSTS; TranspositionTable_putByte(t, idx, v); CANARY_POINT; }
 void h_byteSize(void) { struct TranspositionTable* t; TranspositionTable_byteSize(t); CANARY_POINT; }
+void h_updateTB(void) { struct TranspositionTable* t; struct Position* p; S64* mt; HAVOC_GHOSTS; TranspositionTable_updateTB_requiredTime = (S64)nondet_u64();
+    TranspositionTable_updateTB(t, p, mt); CANARY_POINT; }
+void h_clear_head(void) { struct TranspositionTable* t; TranspositionTable_clear_head(t); CANARY_POINT; }
 void h_resize(void) { struct TTStorage* s; U32 size; TTStorage_resize(s, size); CANARY_POINT; }
 
 /* Lemma (torn reads): two records A,B stored as units; a reader sees any mix of their 64-bit words.
@@ -296,7 +361,7 @@ void h_lemma_tbregion(void) {
 """
 
 # constant-trip loops (4 slots per bucket): unrolled completely, with unwinding assertions
-UNWIND = {'TranspositionTable_probe': 5, 'TranspositionTable_insert': 5}
+UNWIND = {'TranspositionTable_probe': 5, 'TranspositionTable_insert': 5, 'spec_popcount': 65, 'spec_lowest': 65, 'spec_highest': 65}
 GROUPS = [
     Group('setUsedSize', 'h_setUsedSize', enforce='TranspositionTable_setUsedSize', loop_contracts=True,
           no_unwind_funcs=('TranspositionTable_setUsedSize',), min_props=20, expect_loop_props=1),
@@ -312,11 +377,14 @@ GROUPS = [
     Group('putByte', 'h_putByte', enforce='TranspositionTable_putByte', min_props=3),
     Group('byteSize', 'h_byteSize', enforce='TranspositionTable_byteSize', min_props=1),
     Group('resize', 'h_resize', enforce='TTStorage_resize', replace=('TranspositionTable_byteSize',), min_props=2),
+    Group('updateTB', 'h_updateTB', enforce='TranspositionTable_updateTB', replace=('TranspositionTable_setUsedSize', 'ghost_tbgen_probeDTM', 'ghost_tbgen_generate', 'BitBoard_bitCount'), min_props=10),
+    Group('clear_head', 'h_clear_head', enforce='TranspositionTable_clear_head', replace=('TranspositionTable_setUsedSize',), min_props=5),
     Group('lemma_torn', 'h_lemma_torn', replace=('TTEntry_load', 'TTEntry_store'), min_props=5),
     Group('lemma_fields', 'h_lemma_fields', min_props=10),
     Group('lemma_tbregion', 'h_lemma_tbregion', replace=('TranspositionTable_byteSize',), min_props=3),
 ]
 PROPERTIES = {
     'C08': ['setUsedSize', 'getIndex', 'store', 'load', 'probe', 'insert', 'setScore', 'getScore', 'getByte', 'putByte',
-            'byteSize', 'resize', 'lemma_torn', 'lemma_fields', 'lemma_tbregion'],
+            'byteSize', 'resize', 'lemma_torn', 'lemma_fields', 'lemma_tbregion', 'updateTB', 'clear_head'],
+    'C12': ['updateTB', 'clear_head', 'lemma_tbregion', 'setUsedSize'],
 }
